@@ -205,6 +205,16 @@ def transplant(B, gaps, C, atriv=None):
         elif tag == "insert":
             out.extend(pending)
             pending = []
+            # closers that open the annotation gap in front of B[b0] close blocks the annotation opened around the
+            # PREVIOUS real tokens: they stay in front of the tokens the working tree inserted here
+            if b0 < len(gaps):
+                g = gaps[b0]
+                k = 0
+                while k < len(g) and g[k].kind == "punct" and g[k].text in ("}", ")", "]"):
+                    k += 1
+                if k:
+                    out.extend(g[:k])
+                    gaps[b0] = g[k:]
             out.extend(C[c0:c1])
             changes.append(("insert", b0, b1, c0, c1))
         else:  # replace
